@@ -9,7 +9,8 @@ def run(prog, rep, tier):
                   "?x/!x registrations (macro-expanded, lambdas instantiated per call site) has polarity matching its first character and both "
                   "polarities come from one overload table; A4: operator!(pred_result) is {no->yes, yes->no, fail->fail} and pred_not is built only "
                   "by maybe_invert/build_pred; A5: every origin->set_next gets make_unique<stack>(copy) where the incoming stack must survive, or a "
-                  "moved stack not used afterwards.")
+                  "moved stack not used afterwards; A6: op_subx::next (let, infix operands) and op_capture::next never return the stack that their inner "
+                  "chain produced.")
     rep.not_decided = "that each predicate computes the documented truth value for its operands."
     apply(rep, "A1", "predicates are read-only on their stack", r_pred.a1(prog), 20)
     apply(rep, "A2", "op_assert yields the pulled stack unchanged", r_pred.a2(prog), 1)
@@ -20,4 +21,5 @@ def run(prog, rep, tier):
         raise Broken("fewer predicate registrations than confirmed by hand (1500)")
     apply(rep, "A4", "negation keeps fail", r_pred.a4(prog), 4)
     apply(rep, "A5", "sub-expressions are fed a copy", r_pred.a5(prog), 10)
+    apply(rep, "A6", "let/infix/capture yield the outer stack, never the sub-expression's", r_pred.a6(prog), 2)
     maybe_mutants("C04", rep, tier)
